@@ -163,10 +163,15 @@ func init() {
 			return nil
 		},
 		Cases: func(c *mon.Ctx) int {
-			return c17PairCases(c) + c17RelCases(c) + c17OnionCases() + nGen + nSeeds + c.Pick(3000, 100000)
+			return c17CNCases(c) + c17PairCases(c) + c17RelCases(c) + c17OnionCases() + nGen + nSeeds + c.Pick(3000, 100000)
 		},
 		RunCase: func(c *mon.Ctx, i int) {
 			rng := c.Rng(i, 0)
+			if i < c17CNCases(c) {
+				c17CommonNames(c, i, rng)
+				return
+			}
+			i -= c17CNCases(c)
 			if i < c17PairCases(c) {
 				c17Pair(c, i, rng)
 				return
@@ -240,6 +245,10 @@ func init() {
 			if r.Counters["pool_pairs"] < int64(len(gen.GNPool)*(len(gen.GNPool)-1)/2) {
 				gates = append(gates, "not every pair of general-name pool entries was built")
 			}
+			ev.Coverage["common_name_pairs"] = r.Counters["common_name_pairs"]
+			if r.Counters["common_name_pairs"] < 1000 {
+				gates = append(gates, "too few dNSName pairs under unusual common names built")
+			}
 			ev.Coverage["relative_triples"] = r.Counters["relative_triples"]
 			if r.Counters["relative_triples"] < 5000 {
 				gates = append(gates, "too few relative triples built")
@@ -306,6 +315,47 @@ func c17Pair(c *mon.Ctx, i int, rng *rand.Rand) {
 	}
 	c.R.Count("pool_pairs", 1)
 	c17Judge(c, fmt.Sprintf("gen/pair%v", labels), dc, "san", sanList, rng, labels)
+}
+
+// ---- dNSName pairs under unusual common names ----
+//
+// DNS-name lints judge the subject common name together with the SAN dNSNames, and treat a common name that is empty
+// or an IP literal specially. Whether a finding about one SAN entry survives a re-ordering can therefore depend on
+// what the common name is. Every unordered pair of dNSName pool entries is built under each common name of a small
+// pool (IPv4 / IPv6 literals, a bare public suffix, underscores, a wildcard, a leading hyphen, an onion name, an
+// attribute with an empty value); quick takes a hashed third of the product, thorough all.
+var c17CNPool = []string{"192.0.2.10", "2001:db8::10", "co.uk", "a_b.c_d.com", "*.example.com", "www.-example.com", "x.onion", ""}
+
+func c17CNCases(c *mon.Ctx) int {
+	n := len(gen.DNSPool())
+	return n * (n - 1) / 2 * len(c17CNPool)
+}
+
+func c17CommonNames(c *mon.Ctx, i int, rng *rand.Rand) {
+	if !c.Thorough() && !directedSampled(c, i, 3) {
+		return
+	}
+	dns := gen.DNSPool()
+	n := len(dns)
+	cn := c17CNPool[i%len(c17CNPool)]
+	k := i / len(c17CNPool)
+	a := 0
+	for k >= n-1-a {
+		k -= n - 1 - a
+		a++
+	}
+	b := a + 1 + k
+	ea, eb := dns[a], dns[b]
+	spec := gen.TLSLeaf(gen.D(2024, 3, 1), "www.example.com")
+	spec.Subject = gen.Name(gen.A(gen.OIDC, "US"), gen.A(gen.OIDO, "Example Org"), gen.A(gen.OIDCN, cn))
+	labels := []string{ea.Label, eb.Label}
+	spec.ReplaceExt(gen.ExtSAN(false, ea.Node(), eb.Node()))
+	dc, err := der.ParseCert(spec.DER())
+	if err != nil {
+		return
+	}
+	c.R.Count("common_name_pairs", 1)
+	c17Judge(c, fmt.Sprintf("gen/cn-pair%v under common name %q", labels, cn), dc, "san", sanList, rng, labels)
 }
 
 // ---- relatives ----
